@@ -256,16 +256,27 @@ func (w *World) enabled() []Action {
 	// configurations without delay faults the clock only moves when nothing is waiting.
 	pendingReplies := len(acts) > 0 && strings.HasPrefix(acts[0].ID, "reply|")
 	advW, advEvW := cfg.W.Advance, cfg.W.AdvEvent
-	if pendingReplies && !cfg.DelayFaults {
+	booting := false
+	for _, m := range w.members {
+		if m.started && !m.ready && !m.crashed {
+			booting = true
+		}
+	}
+	if pendingReplies && (!cfg.DelayFaults || booting && !cfg.BootFaults) {
 		advW, advEvW = 0, 0
 	}
-	acts = append(acts, Action{ID: "adv|event", W: advEvW, Do: func() { w.advanceUntilEvent(cfg.AdvEventMax) }})
+	acts = append(acts, Action{ID: "adv|event", W: advEvW, Do: func() {
+		if pendingReplies && !w.quiet {
+			w.fault("delay", "")
+		}
+		w.advanceUntilEvent(cfg.AdvEventMax)
+	}})
 	if !w.quiet {
 		for _, d := range cfg.Advances {
 			d := d
 			acts = append(acts, Action{ID: "adv|" + d.String(), W: advW, Do: func() {
 				if pendingReplies {
-					w.faultsFired["delay"]++
+					w.fault("delay", "")
 				}
 				w.advance(d)
 			}})
